@@ -79,14 +79,160 @@ Proof.
   unfold parse_object_cons_body. run.
 Qed.
 
-(* finishParsingForExpr *)
+(* finishParsingForExpr, by segments *)
+Lemma for_names_good : spec cE f for_names.
+Proof. unfold spec. start. unfold for_names. run. Qed.
+
+Lemma for_key_val_good p_expr : spec cE f p_expr -> spec cE f (for_key_val p_expr).
+Proof. unfold spec. intro He. start. unfold for_key_val. run. Qed.
+
+Lemma for_group_good : spec cE f for_group.
+Proof. unfold spec. start. unfold for_group. run. Qed.
+
+Lemma for_cond_good p_expr : spec cE f p_expr -> spec cE f (for_cond p_expr).
+Proof. unfold spec. intro He. start. unfold for_cond. run. Qed.
+
+Lemma for_close_good ct ds : spec cE f (for_close f ct ds).
+Proof. unfold spec. start. unfold for_close. run. Qed.
+
 Lemma for_expr_good p_expr :
   spec cE f p_expr ->
   forall o, spec_pre (for_pre o) cFor (S f) (finish_parsing_for_expr_body f p_expr o).
 Proof.
-  unfold spec, spec_pre, for_pre. intros He o.
+  intros He o.
+  pose proof for_names_good as H1. pose proof (for_key_val_good _ He) as H2.
+  pose proof for_group_good as H3. pose proof (for_cond_good _ He) as H4.
+  pose proof for_close_good as H5.
+  unfold spec, spec_pre, for_pre in *.
   intros [tk lt sk rc] Hwf [Hpre Ho]. destruct sk as [|b sk]; [exfalso; apply Hwf; reflexivity|]. clear Hwf.
   norm_in Hpre.
   unfold finish_parsing_for_expr_body, finish_parsing_for_expr_inner, for_bail_diag, for_bail. run.
 Qed.
 End bodies.
+
+(* ---- the knot ------------------------------------------------------------------------------------- *)
+Lemma attr_splat_loop_spec f : forall t d, spec cSplat f (attr_splat_loop f t d).
+Proof.
+  induction f as [|f IH]; intros t d.
+  - intros s _. cbn. intros _. unfold fuel_factor. lia.
+  - exact (attr_splat_loop_good f (attr_splat_loop f) IH t d).
+Qed.
+
+Lemma call_name_loop_spec f : forall n o d, spec cName f (call_name_loop f n o d).
+Proof.
+  induction f as [|f IH]; intros n o d.
+  - intros s _. cbn. intros _. unfold fuel_factor. lia.
+  - exact (call_name_loop_good f (call_name_loop f) IH n o d).
+Qed.
+
+Definition expr_specs (f : nat) : Prop :=
+  spec cE f (parse_expression f) /\
+  spec cWT f (parse_expression_with_traversals f) /\
+  (forall e d, spec cTrav f (traversals_loop f e d)) /\
+  spec cTerm f (parse_expression_term f) /\
+  (forall name, spec_pre (peeks is_call_open) cCall f (finish_parsing_function_call f name)) /\
+  (forall a d, spec cLoop f (call_args_loop f a d)) /\
+  expand_has_args (call_args_loop f) /\
+  spec_pre (peeks is_obrack) cCons f (parse_tuple_cons f) /\
+  (forall a d, spec cLoop f (tuple_loop f a d)) /\
+  spec_pre (peeks is_obrace) cCons f (parse_object_cons f) /\
+  (forall a d, spec cLoop f (object_loop f a d)) /\
+  (forall o, spec_pre (for_pre o) cFor f (finish_parsing_for_expr f o)).
+
+Lemma expr_knot f : expr_specs f.
+Proof.
+  induction f as [|f IH]; unfold expr_specs.
+  - repeat split;
+      try (unfold spec, spec_pre; intros; cbn; intros _; unfold fuel_factor; lia).
+    unfold expand_has_args. intros a d s args ds s' H. discriminate H.
+  - destruct IH as (HE & HWT & HTR & HT & HC & HAL & HX & HTC & HTL & HOC & HOL & HF).
+    assert (HBO : spec cWT f (fun s => parse_binary_ops f (parse_expression_with_traversals f) binary_ops s))
+      by (exact (parse_binary_ops_good _ f HWT binary_ops binary_ops_no_eof)).
+    assert (HTI : forall e fl, spec cE f (parse_template_inner (parse_expression f) f e fl))
+      by (intros e fl s Hs; apply (parse_template_inner_good (parse_expression f) f 5); [lia | exact HE | lia | exact Hs]).
+    repeat split.
+    + exact (ternary_good f _ _ HE HBO).
+    + exact (with_traversals_good f _ _ HT (fun e => HTR e [])).
+    + exact (traversals_loop_good f _ _ _ _ HE (fun e => HTR e []) (attr_splat_loop_spec f) HTR).
+    + exact (term_good f _ _ _ _ _ _ HE HWT HC HTC HOC HTI
+               (fun e fl s exprs ds s' => parse_template_inner_passthru (parse_expression f) f e fl s exprs ds s')).
+    + exact (function_call_good f _ _ (call_name_loop_spec f) HAL HX).
+    + exact (call_args_loop_good f _ _ HE HAL).
+    + exact (call_args_expand_body f _ _ HX).
+    + exact (tuple_cons_good f _ _ HF HTL).
+    + exact (tuple_loop_good f _ _ HE HTL).
+    + exact (object_cons_good f _ _ HF HOL).
+    + exact (object_loop_good f _ _ HE HOL).
+    + exact (for_expr_good f _ HE).
+Qed.
+
+Lemma parse_expression_spec f : spec cE f (parse_expression f).
+Proof. apply (expr_knot f). Qed.
+
+(* ---- entry points ------------------------------------------------------------------------------------ *)
+Lemma parse_expression_entry_m_good fuel : spec cE fuel (parse_expression_entry_m fuel).
+Proof.
+  pose proof (parse_expression_spec fuel) as He. unfold spec in *.
+  start. unfold parse_expression_entry_m. run.
+Qed.
+
+Lemma parse_template_entry_m_good fuel : spec 6 fuel (parse_template_entry_m fuel).
+Proof.
+  destruct fuel as [|f].
+  - intros s _. cbn. intros _. unfold fuel_factor. lia.
+  - intros s Hs. cbn [parse_template_entry_m].
+    pose proof (parse_template_good (parse_expression f) f 5 ltac:(lia) (parse_expression_spec f)
+                  f TokenEOF false s (le_n _) Hs) as H.
+    destruct (parse_template (parse_expression f) f TokenEOF false s); cbn in *; try assumption.
+    intro He. specialize (H He). lia.
+Qed.
+
+(* the token stream ends with an EOF token (what the scanner always produces) *)
+Definition ends_with_eof (ts : list ptok) : Prop :=
+  exists pre t, ts = pre ++ [t] /\ pty t = TokenEOF.
+
+Lemma init_state_eof ts : ends_with_eof ts ->
+  exists s0, init_state ts = Some s0 /\ eof_ok s0 /\ wf s0 /\ nlstack s0 = [true] /\ rem s0 = length ts.
+Proof.
+  intros (pre & t & -> & Ht).
+  destruct (pre ++ [t]) as [|t0 r] eqn:E; [destruct pre; discriminate|].
+  eexists; split; [reflexivity|]. cbn. repeat split; try discriminate.
+  unfold eof_ok, last_tok; cbn.
+  assert (last r t0 = t).
+  { change (last r t0) with (last_tok t0 r). 
+    assert (H : last (t0 :: r) t0 = t) by (rewrite <- E; apply last_last).
+    destruct r; [cbn in *; assumption|]. exact H. }
+  congruence.
+Qed.
+
+Lemma init_state_some ts : ts <> [] ->
+  exists s0, init_state ts = Some s0 /\ wf s0 /\ nlstack s0 = [true].
+Proof.
+  destruct ts; [congruence|]. intros _. eexists; split; [reflexivity|]. cbn. split; [discriminate|reflexivity].
+Qed.
+
+(* the generic argument for an entry point whose parser body satisfies `spec c` with c <= K *)
+Lemma run_entry_total {A} (m : nat -> M (A * diags)) c ts :
+  (c <= K)%nat -> (forall fuel, spec c fuel (m fuel)) -> ends_with_eof ts ->
+  run_entry ts (m (fuel_for ts)) <> EOutOfFuel.
+Proof.
+  intros Hc Hm Heof. destruct (init_state_eof ts Heof) as (s0 & Hi & He & Hw & Hs & Hr).
+  unfold run_entry. rewrite Hi.
+  specialize (Hm (fuel_for ts) s0 Hw).
+  unfold bind. destruct (m (fuel_for ts) s0) as [[a ds] s1| |]; cbn in Hm.
+  - destruct Hm as (Hk & _). unfold assert_empty_include_newlines_stack. rewrite Hk, Hs. cbn. discriminate.
+  - specialize (Hm He). unfold fuel_for, fuel_factor in *. rewrite Hr in Hm. lia.
+  - destruct Hm.
+Qed.
+
+Lemma run_entry_no_panic {A} (m : M (A * diags)) c fuel ts :
+  ts <> [] -> spec c fuel m -> forall p, run_entry ts m <> EPanic p.
+Proof.
+  intros Hne Hm p. destruct (init_state_some ts Hne) as (s0 & Hi & Hw & Hs).
+  unfold run_entry. rewrite Hi.
+  specialize (Hm s0 Hw).
+  unfold bind. destruct (m s0) as [[a ds] s1| |]; cbn in Hm.
+  - destruct Hm as (Hk & _). unfold assert_empty_include_newlines_stack. rewrite Hk, Hs. cbn. discriminate.
+  - discriminate.
+  - destruct Hm.
+Qed.
